@@ -163,7 +163,8 @@ def get_files(
                 if diagnostics is not None:
                     rel_path = PurePath(os.path.relpath(dir_snooty_path, root))
                     diagnostics[FileId(rel_path)] = [NestedProject(d_name, 0)]
-        # Only recurse into directories which are within our prefix
+        # Only recurse into directories which are within our prefix, and neither a nested
+        # project nor (reached through a symlink) a directory somewhere inside one
         dirs[:] = [
             d_name
             for d_path, d_name in ((k, v) for k, v in dirs_set.items() if k not in seen)
@@ -171,6 +172,12 @@ def get_files(
                 base_resolved.joinpath(d_path).resolve(), must_be_relative_to
             )
             and not d_path / SNOOTY_TOML in nested_set
+            and not any(
+                exists(ancestor / SNOOTY_TOML)
+                for ancestor in d_path.parents
+                if ancestor != root_resolved
+                and is_relative_to(ancestor, root_resolved)
+            )
         ]
 
         seen.update(dirs_set)
